@@ -1,4 +1,8 @@
-"""Groups for the map (C08, C15 map part, C16 map part): bounded whole-operation checks on concrete scripts."""
+"""Groups for the map (C08, C15 map part, C16 map part): bounded whole-operation checks on concrete scripts.
+
+Sizing note: the vacuity run of a B group makes CBMC emit the complete execution as a JSON trace (about 1 kB per
+executed statement), so every group is kept at roughly 100-170 thousand symbolic-execution steps; that is why the
+script tree is cut into slices by first and second operation."""
 from .run import Group
 
 
@@ -7,6 +11,8 @@ def groups():
     src = [('bintree.c', {'normalise': True}), ('rbtree.c', {'normalise': True}), 'map.c']
     G = []
     ins = ['insert K[0]', 'insert K[1]', 'insert K[2]', 'insert K2[0]', 'insert K2[1]', 'insert K2[2]']
+    opname = ['insert K[%d]' % i for i in range(3)] + ['insert K2[%d]' % i for i in range(3)] + ['erase key %d' % i for i in range(3)] + \
+             ['erase by iterator from find(%d)' % i for i in range(3)]
     alphabet = ('alphabet {insert K[i], insert K2[i] (equal key, other key object), erase by key i, erase by iterator from find(i), '
                 'find i}, i in 0..2')
     model = ('after every state-changing operation: size, find of every key (stored key/value pointers or end), red-black tree walk '
@@ -15,55 +21,63 @@ def groups():
              'are checked for their result and for leaving map, nodes and allocator bit-for-bit untouched; at every reached state: clear '
              'with a recording callback (each entry exactly once with its stored pointers), leak / double-free / write-after-free audit '
              'of the node allocator, re-insert, clear without callback')
+    sec = [(0, 2, 'insert K[j]'), (3, 5, 'insert K2[j]'), (6, 14, 'erase by key / by iterator')]
     # --- C08: script tree, quick: at most 3 state-changing operations (any number of non-changing ones in between)
     for f in range(6):
-        G.append(Group('map.script.len3.first%d' % f, ['C08', 'C15'], 'B', S, 'h_b_script', sources=src,
-                       defines=['-DVF_B=1', '-DVF_ARENA', '-DVF_LEN=3', '-DVF_FIRST_LO=%d' % f, '-DVF_FIRST_HI=%d' % f],
-                       unwind=20, malloc_fail=False, timeout=900, replay=True,
-                       what='every operation script with at most 3 state-changing operations starting with "%s" (%s): %s' % (ins[f], alphabet, model),
-                       scope='maps of <= 3 entries, keys {0,1,2} through two key objects each; scripts with <= 3 inserts-of-new/erases-of-present '
-                             'and any number of interleaved duplicate inserts, failed erases and finds (covers every script of length <= 3); '
-                             'node allocator = static arena, never fails'))
-    # --- thorough: at most 4 state-changing operations, split by first operation and a range of second operations
-    sec = [(0, 2, 'insert K[j]'), (3, 5, 'insert K2[j]'), (6, 14, 'erase / erase by iterator')]
-    for f in range(6):
         for k, (lo, hi, txt) in enumerate(sec):
-            G.append(Group('map.script.len4.first%d.second%d' % (f, k), ['C08', 'C15'], 'B', S, 'h_b_script', sources=src,
-                           defines=['-DVF_B=1', '-DVF_ARENA', '-DVF_LEN=4', '-DVF_FIRST_LO=%d' % f, '-DVF_FIRST_HI=%d' % f,
+            G.append(Group('map.script.len3.first%d.second%d' % (f, k), ['C08', 'C15'], 'B', S, 'h_b_script', sources=src,
+                           defines=['-DVF_B=1', '-DVF_ARENA', '-DVF_LEN=3', '-DVF_FIRST_LO=%d' % f, '-DVF_FIRST_HI=%d' % f,
                                     '-DVF_SECOND_LO=%d' % lo, '-DVF_SECOND_HI=%d' % hi],
+                           unwind=20, malloc_fail=False, timeout=900, replay=True,
+                           what='every operation script with at most 3 state-changing operations starting with "%s", then "%s" (%s): %s' % (ins[f], txt, alphabet, model),
+                           scope='maps of <= 3 entries, keys {0,1,2} through two key objects each; scripts with <= 3 inserts-of-new/erases-of-present '
+                                 'and any number of interleaved duplicate inserts, failed erases and finds (covers every script of length <= 3); '
+                                 'node allocator = static arena, never fails'))
+    # --- thorough: at most 4 state-changing operations, one slice per first and second state-changing operation
+    for f in range(6):
+        a = f % 3
+        for c in [x for x in range(6) if x % 3 != a] + [6 + a, 9 + a]:
+            G.append(Group('map.script.len4.first%d.second%d' % (f, c), ['C08', 'C15'], 'B', S, 'h_b_script', sources=src,
+                           defines=['-DVF_B=1', '-DVF_ARENA', '-DVF_LEN=4', '-DVF_FIRST_LO=%d' % f, '-DVF_FIRST_HI=%d' % f,
+                                    '-DVF_SECOND_LO=%d' % c, '-DVF_SECOND_HI=%d' % c],
                            unwind=20, malloc_fail=False, timeout=1800, tier='thorough', replay=True, weight=2,
-                           what='every operation script with at most 4 state-changing operations starting with "%s", then "%s" (%s): %s' % (ins[f], txt, alphabet, model),
+                           what='every operation script with at most 4 state-changing operations starting with "%s", "%s" (%s): %s' % (ins[f], opname[c], alphabet, model),
                            scope='maps of <= 3 entries, keys {0,1,2}; scripts with <= 4 state-changing operations and any number of interleaved '
                                  'non-changing ones (covers every script of length <= 4); static arena, never fails'))
     # --- C15 / C08: clear on maps built in every insertion order, on the real malloc/free (CBMC heap model)
     for p, txt in ((0, 'with the recording callback'), (1, 'without callback')):
-        for nk, tier, unw, to in ((4, 'quick', 300, 900), (5, 'thorough', 3200, 3000)):
-            G.append(Group('map.clear.n%d.%s' % (nk, 'cb' if p == 0 else 'nocb'), ['C08', 'C15'], 'B', S, 'h_b_clear', sources=src,
-                           defines=['-DVF_B=2', '-DVF_NK=%d' % nk, '-DVF_PASS=%d' % p], unwind=unw, malloc_fail=False,
-                           cbmc=['--memory-leak-check'], timeout=to, tier=tier, replay=True, weight=2 if nk == 5 else 1,
-                           what='cstl_map_clear %s on the map built by every sequence of 0..%d distinct keys out of %d (inserts alternately with / without '
-                                'iterator, through either key object): callback exactly once per entry with a detached iterator carrying the stored '
-                                'pointers while the node is still allocated; one free per node, none twice; no access to a freed node (CBMC '
-                                'deallocated-object checks); map empty, re-usable; nothing leaked (--memory-leak-check)' % (txt, nk, nk),
-                           scope='maps of 0..%d entries, every insertion order; nodes from CBMC\'s malloc (never fails)' % nk))
+        for f in range(4):
+            G.append(Group('map.clear.n4.%s.first%d' % ('cb' if p == 0 else 'nocb', f), ['C08', 'C15'], 'B', S, 'h_b_clear', sources=src,
+                           defines=['-DVF_B=2', '-DVF_NK=4', '-DVF_PASS=%d' % p, '-DVF_FIRST=%d' % f], unwind=300, malloc_fail=False,
+                           cbmc=['--memory-leak-check'], timeout=900, replay=True,
+                           what='cstl_map_clear %s on the map built by every sequence of 0..4 distinct keys out of 4 starting with key %d%s (inserts alternately '
+                                'with / without iterator, through either key object): callback exactly once per entry with a detached iterator carrying '
+                                'the stored pointers while the node is still allocated; one free per node, none twice; no access to a freed node (CBMC '
+                                'deallocated-object checks); map empty, re-usable; nothing leaked (--memory-leak-check)'
+                                % (txt, f, ' (and the empty map)' if f == 0 else ''),
+                           scope='maps of 0..4 entries, every insertion order starting with key %d; nodes from CBMC\'s malloc (never fails)' % f))
     # --- C16: the allocation of one chosen insert fails
     for f in range(6):
-        G.append(Group('map.fail.len3.first%d' % f, ['C08', 'C16'], 'B', S, 'h_b_fail', sources=src,
-                       defines=['-DVF_B=3', '-DVF_ARENA', '-DVF_LEN=3', '-DVF_FIRST_LO=%d' % f, '-DVF_FIRST_HI=%d' % f],
-                       unwind=20, malloc_fail=False, timeout=900, replay=True,
-                       what='allocation failure inside cstl_map_insert, injected deterministically (the n-th malloc returns NULL): at every state reached '
-                            'by <= 2 state-changing operations starting with "%s" (and for this insert itself on the empty map) every insert of an '
-                            'absent key is run with its allocation failing: returns -1, end iterator (also with iterator == NULL), map object, every '
-                            'node and the allocator bit-for-bit as before (so any continuation behaves as without the failed call), full model '
-                            'check; then the same insert succeeds, the entry is erased, clear releases everything (zero live nodes)' % ins[f],
-                       scope='scripts of <= 3 inserts/erases in which the failing insert is the 1st, 2nd or 3rd operation; keys {0,1,2}; static arena'))
-    # --- C08: bigger trees: fill with 4 keys in every order, erase in every order
-    for f in range(4):
-        G.append(Group('map.drain.n4.first%d' % f, ['C08'], 'B', S, 'h_b_drain', sources=src,
-                       defines=['-DVF_B=4', '-DVF_ARENA', '-DVF_NK=4', '-DVF_FIRST_LO=%d' % f, '-DVF_FIRST_HI=%d' % f],
-                       unwind=300, malloc_fail=False, timeout=900, replay=True,
-                       what='4 keys inserted in every order starting with key %d, then erased in every order (erase by key and by iterator alternating), '
-                            'full model / red-black check after every operation; the drained map holds no allocation; the full map is cleared with '
-                            'the recording callback' % f,
-                       scope='maps of <= 4 entries: 6 insertion orders x 24 erase orders; static arena'))
+        for k, (lo, hi, txt) in enumerate(((0, 5, 'an insert'), (6, 14, 'an erase'))):
+            G.append(Group('map.fail.len3.first%d.second%d' % (f, k), ['C08', 'C16'], 'B', S, 'h_b_fail', sources=src,
+                           defines=['-DVF_B=3', '-DVF_ARENA', '-DVF_LEN=3', '-DVF_FIRST_LO=%d' % f, '-DVF_FIRST_HI=%d' % f,
+                                    '-DVF_SECOND_LO=%d' % lo, '-DVF_SECOND_HI=%d' % hi],
+                           unwind=20, malloc_fail=False, timeout=900, replay=True,
+                           what='allocation failure inside cstl_map_insert, injected deterministically (the n-th malloc returns NULL): at every state reached '
+                                'by <= 2 state-changing operations starting with "%s" then %s (slice 0 also: this insert itself on the empty map, and every '
+                                'insert after it) every insert of an absent key is run with its allocation failing: returns -1, end iterator (also with '
+                                'iterator == NULL), map object, every node and the allocator bit-for-bit as before (so any continuation behaves as without '
+                                'the failed call), full model check; then the same insert succeeds, the entry is erased, clear releases everything '
+                                '(zero live nodes)' % (ins[f], txt),
+                           scope='scripts of <= 3 inserts/erases in which the failing insert is the 1st, 2nd or 3rd operation; keys {0,1,2}; static arena'))
+    # --- C08: bigger trees: fill with 4 keys in every order, erase in every order (quick: 4 orders, thorough: the other 20)
+    quick_orders = (0, 9, 14, 23)       # 0 = (3,2,1,0) descending ... 23 = (0,1,2,3) ascending (enumeration of h_b_drain)
+    for o in range(24):
+        G.append(Group('map.drain.n4.order%02d' % o, ['C08'], 'B', S, 'h_b_drain', sources=src,
+                       defines=['-DVF_B=4', '-DVF_ARENA', '-DVF_NK=4', '-DVF_ORDER_LO=%d' % o, '-DVF_ORDER_HI=%d' % o],
+                       unwind=300, malloc_fail=False, timeout=900, replay=True, tier='quick' if o in quick_orders else 'thorough',
+                       what='4 keys inserted in insertion order #%d of 24, then erased in every one of the 24 orders (erase by key and by iterator '
+                            'alternating), full model / red-black check after every operation; the drained map holds no allocation; the full map is '
+                            'cleared with the recording callback' % o,
+                       scope='maps of <= 4 entries: 1 insertion order x 24 erase orders; static arena'))
     return G
